@@ -150,7 +150,7 @@ def check_instance(ctx: Ctx, case: dict) -> None:
         InstanceSpace,
     )
     ic = case["inst"]
-    inst = gen_bp.build_instance(ic, name=case["name"])
+    inst = sut("Instance()", gen_bp.build_instance, ic, case["name"])
     text = sut("to_compact_str", inst.to_compact_str)
     require(isinstance(text, str) and "\n" not in text,
             "compact string is not a single line")
@@ -182,7 +182,7 @@ def check_packing(ctx: Ctx, case: dict) -> None:
     from moptipyapps.binpacking2d.packing import Packing
     from moptipyapps.binpacking2d.packing_space import PackingSpace
     ic = case["inst"]
-    inst = gen_bp.build_instance(ic, name=case["name"])
+    inst = sut("Instance()", gen_bp.build_instance, ic, case["name"])
     if case["kind"] == "decoded":
         y = gen_bp.decode(inst, case["x"], case["enc"])
     else:
@@ -336,7 +336,8 @@ def build_results(case: dict) -> list:
         factories.append(_excess_bins_class())
     built = []
     for ent in case["insts"]:
-        inst = gen_bp.build_instance(ent["inst"], name=ent["name"])
+        inst = sut("Instance()", gen_bp.build_instance, ent["inst"],
+                   ent["name"])
         packs = [gen_bp.decode(inst, p["x"], p["enc"]) for p in ent["packs"]]
         objs = [f(inst) for f in factories]
         built.append((inst, packs, objs))
